@@ -265,3 +265,29 @@ func sameResource(a, b Resource, what string) {
 		verifrt.Assert(ok && verifrt.EqBytes(x.Data, y.Data), what+": raw")
 	}
 }
+
+// VerifModel_bytes_EqualFold: package-level default model (picked up by the engine for every harness of this package)
+// of bytes.EqualFold for ASCII operands: equal length and octet-wise equal after folding A-Z. The real function folds
+// by Unicode simple case folding over UTF-8, which forks on every symbolic octet; for operands restricted to ASCII the
+// two agree exactly. Paths on which an operand has an octet >= 0x80 are cut (assumption, stated in the evidence); the
+// pinned tree does not call EqualFold in this package at all.
+func VerifModel_bytes_EqualFold(a, b []byte) bool {
+	if len(a) != len(b) {
+		for _, c := range a {
+			verifrt.Assume(c < 0x80)
+		}
+		for _, c := range b {
+			verifrt.Assume(c < 0x80)
+		}
+		return false
+	}
+	eq := true
+	for i := range a {
+		x, y := a[i], b[i]
+		verifrt.Assume(x < 0x80 && y < 0x80)
+		lx := byte(verifrt.Ite('A' <= x && x <= 'Z', int(x)+32, int(x)))
+		ly := byte(verifrt.Ite('A' <= y && y <= 'Z', int(y)+32, int(y)))
+		eq = verifrt.And(eq, lx == ly)
+	}
+	return eq
+}
